@@ -365,10 +365,12 @@ def r03_5(prog, out):
     R = roles(prog)
     pullv = R.pull_variant()
     cons = sorted({bid for bid, _, _, _ in prog.constructions(R.sub_actor.request, pullv)})
-    if len(cons) == 1:
-        out.holds("lease-request-built", prog.loc(cons[0]), "only %s builds the %s request" % (prog.short(cons[0]), pullv))
+    # the door is the request *variant* (its handler is the only code that pops, below); it may be built by one handle method,
+    # by sibling methods (`.._with_flow`), or in a handler a method was written into
+    if cons:
+        out.holds("lease-request-built", prog.loc(cons[0]), "%s build(s) the %s request" % (", ".join(prog.short(c) for c in cons), pullv))
     else:
-        out.violation("lease-request-built", "", "the lease request is built in %d places" % len(cons))
+        out.violation("lease-request-built", "", "the lease request is never built")
     # consumers: unary pull, streaming pull, push round
     want = {"pull": prog.handler("pull"), "streaming_pull": prog.handler("streaming_pull")}
     for name, h in want.items():
@@ -377,11 +379,11 @@ def r03_5(prog, out):
         cone = set(prog.cone(h.root, follow=("call", "closure", "poll")))
         # stream bodies are closures of the handler
         key = "consumer-door:%s" % name
-        if cons and cons[0] in cone:
+        if any(c in cone for c in cons):
             out.holds(key, prog.loc(h.root), "reaches the lease request")
         else:
             out.violation(key, prog.loc(h.root), "%s does not obtain messages through the lease request" % name)
-    push = [b.id for b in prog.facts.lib_bodies() if b.id.startswith("crate::push::push_loop::") and b.coroutine and cons and cons[0] in set(prog.cone(b.id, follow=("call", "closure", "poll", "spawn")))]
+    push = [b.id for b in prog.facts.lib_bodies() if b.id.startswith("crate::push::push_loop::") and b.coroutine and any(c in set(prog.cone(b.id, follow=("call", "closure", "poll", "spawn"))) for c in cons)]
     if push:
         out.holds("consumer-door:push", prog.loc(push[0]), "the push round reaches the lease request")
     else:
